@@ -54,8 +54,12 @@ NAMED_ACTIONS = {
     "DoSetAbsorption": "A:FO", "DoSetElimination": "E:FO", "DoSetPeripherals": "P:0", "DoAddPeripheral": "P+",
     "DoRemovePeripheral": "P-", "DoSetTransits": "T:0", "DoSetTransitsNoDepot": "T:2N", "DoAddLag": "L:1",
     "DoRemoveLag": "L:0", "DoAddBio": "B:1", "DoRemoveBio": "B:0", "DoAddMetabolite": "M:BASIC",
-    "DoAddEffectComp": "X:LIN",
+    "DoAddEffectComp": "X:LIN", "DoRequestViaMFL": "A:FO",
 }
+# search space from which the MFL feature -> function table is built (must equal FeaturesDefs.MFLSpace)
+MFL_SPACE = ("ABSORPTION([FO,ZO,SEQ-ZO-FO,INST]);ELIMINATION([FO,ZO,MM,MIX-FO-MM]);PERIPHERALS([0,1,2]);TRANSITS([0,1,3],*);"
+             "LAGTIME([OFF,ON]);METABOLITE([BASIC,PSC]);EFFECTCOMP([LINEAR,EMAX])")
+_MFL_FUNCS: dict = {}   # "TRANSITS(1,NODEPOT)" -> function stored under that key of the table
 
 CHUNK = 4               # obligations per worker task (a task first replays the history of its state)
 _MODELS: dict = {}      # start name -> pharmpy model (read in the parent, inherited by forked workers)
@@ -95,8 +99,13 @@ def _load(names=None):
             if not path.exists():
                 raise core.MachineryError(f"start model {path} not found")
             _MODELS[name] = pm.read_model(path)
-    # warm caches that every worker would otherwise fill separately
-    from pharmpy.tools.mfl.parse import get_model_features  # noqa: F401
+    if not _MFL_FUNCS:
+        # the request path of the search tools: MFL string -> ModelFeatures -> convert_to_funcs() -> {key: function}
+        from pharmpy.tools.mfl.parse import ModelFeatures
+
+        table = ModelFeatures.create_from_mfl_string(MFL_SPACE).convert_to_funcs()
+        for key, fn in table.items():
+            _MFL_FUNCS[f"{key[0]}({','.join(str(a) for a in key[1:])})"] = fn
 
 
 _FEAT_RE = re.compile(r"(ABSORPTION|ELIMINATION|LAGTIME|TRANSITS|PERIPHERALS)\(([^)]*)\)")
@@ -193,10 +202,13 @@ def _norm_msg(msg: str) -> str:
     return msg.strip()[:90]
 
 
-def apply(model, tok):
-    """One public setter call.  Returns (model2 | None, out, info) with out in applied / refused / error."""
+def apply(model, tok, mfl_key=None):
+    """One public setter call - or, with mfl_key, one call of the function the MFL feature -> function table
+    stores under that key.  Returns (model2 | None, out, info) with out in applied / refused / error."""
     try:
-        m2 = _SETTERS[tok](model)
+        if mfl_key is not None and mfl_key not in _MFL_FUNCS:
+            raise KeyError(f"the MFL table built from the search space has no entry {mfl_key}")
+        m2 = (_SETTERS[tok] if mfl_key is None else _MFL_FUNCS[mfl_key])(model)
     except Exception as e:  # noqa: BLE001 - the class is the observation
         tb = traceback.extract_tb(e.__traceback__)
         inner = tb[-1]
@@ -421,11 +433,12 @@ def _vec_pub(vec):
     return {k: vec[k] for k in CATS + ["route"]}
 
 
-def _step_obs(start, hist, pre, tok, model, route, pre_ndoses, mfl=False):
+def _step_obs(start, hist, pre, tok, model, route, pre_ndoses, mfl=False, mfl_key=None):
     """execute tok on model; returns (obs dict, model2 | None, post vec | None)"""
     t0 = time.process_time()
-    m2, out, info = apply(model, tok)
-    obs = {"kind": "step", "start": start, "hist": list(hist), "act": tok, "pre": _vec_pub(pre), "out": out,
+    m2, out, info = apply(model, tok, mfl_key)
+    obs = {"kind": "step", "via": "setter" if mfl_key is None else "mfl", "start": start, "hist": list(hist), "act": tok,
+           "pre": _vec_pub(pre), "out": out,
            "post": _vec_pub(pre), "wf": {"connected": True, "doses_same": True}, "info": info}
     post = None
     if m2 is not None:
@@ -458,7 +471,7 @@ def _on_template(ob, post):
 
 def expand(task):
     """Obligations of one reached state: every enabled request, f.f and undo where the spec names them."""
-    start, hist, pre_key, obls, route, first = task
+    start, hist, pre_key, obls, route, first, via_mfl = task
     model = _rebuild(start, hist)
     pre, _ = classify(model, route)
     if _key(pre) != pre_key:
@@ -476,7 +489,7 @@ def expand(task):
                 raise core.MachineryError(f"get_model_features fails on start model {start}: {e}")
             prev = _rebuild(start, hist[:-1])
             ppre, _ = classify(prev, route)
-            out.append({"kind": "step", "start": start, "hist": list(hist[:-1]), "act": hist[-1], "pre": _vec_pub(ppre), "out": "error",
+            out.append({"kind": "step", "via": "setter", "start": start, "hist": list(hist[:-1]), "act": hist[-1], "pre": _vec_pub(ppre), "out": "error",
                         "post": _vec_pub(ppre), "wf": {"connected": True, "doses_same": True}, "dt": 0,
                         "info": {"exc": "detect:" + type(e).__name__, "where": _site(e), "msg": _norm_msg(str(e))}})
     for ob in obls:
@@ -486,6 +499,13 @@ def expand(task):
         out.append(obs)
         out.extend({"kind": "note", "note": n} for n in _guard_dataset(model, cols0, f"{tok} (or its f.f / undo) on {start}:{list(hist)}"))
         _flag(obs, ob, post)
+        if via_mfl and ob.get("mfl", "none") != "none":
+            # the same request through the MFL feature -> function table: same obligation, judged the same way
+            obsm, _mm, _pm = _step_obs(start, hist, pre, tok, model, route, nd, mfl_key=ob["mfl"])
+            obsm["derived"] = "mfl"
+            obsm["mfl_key"] = ob["mfl"]
+            out.append(obsm)
+            out.extend({"kind": "note", "note": n} for n in _guard_dataset(model, cols0, f"{tok} via MFL on {start}:{list(hist)}"))
         if not obs["clean"]:
             continue    # failed / ill-formed / off the template / never-run request: no relation is demanded on top
         nd1 = obs["info"]["ndoses"]
@@ -569,6 +589,12 @@ def tlc_graph(cfg_name, acts, v: core.Verdict, timeout=1500):
         raise core.MachineryError(f"Features.tla/{cfg_name}: design-level invariant {res.violated} violated:\n" + "\n".join(res.trace[-2:])[:1500])
     _check_vacuity(res, acts, f"Features.tla/{cfg_name}")
     core.tlc_stats_into(v, res)
+    meta = [c for tag, c in res.prints if tag == "META"]
+    if not meta or meta[0]["space"] != MFL_SPACE:
+        raise core.MachineryError("the MFL search space of the harness differs from FeaturesDefs.MFLSpace")
+    missing = sorted(k for k in meta[0]["keys"].values() if k not in _MFL_FUNCS)
+    if missing:
+        raise core.MachineryError(f"the MFL feature -> function table has no entry for {missing}")
     table = {}
     for tag, c in res.prints:
         if tag == "CASE":
@@ -657,7 +683,8 @@ class Book:
             self.notes.setdefault(key, [0, obs["note"]])[0] += 1
             return
         if obs["kind"] == "step":
-            rec = {"kind": "step", "pre": obs["pre"], "act": obs["act"], "out": obs["out"], "post": obs["post"], "wf": obs["wf"]}
+            rec = {"kind": "step", "via": obs.get("via", "setter"), "pre": obs["pre"], "act": obs["act"], "out": obs["out"],
+                   "post": obs["post"], "wf": obs["wf"]}
             sig = json.dumps([rec, obs["info"].get("exc"), obs["info"].get("where"), obs["info"].get("msg")], sort_keys=True)
             self.calls += 1
             self.times.append(obs.get("dt", 0))
@@ -699,6 +726,7 @@ def _case_record(obs, verdict):
         outcome = kind
     rec = {
         "start": obs["start"], "history": {"full": full, "suffix": full[-2:]}, "act": tok, "act_cat": cat,
+        "via": obs.get("via", "setter") + (":" + obs["mfl_key"] if obs.get("mfl_key") else ""),
         "pre": pre, "outcome": outcome, "where": info.get("where", ""), "msg": info.get("msg", ""),
     }
     if obs["kind"] == "step":
@@ -713,7 +741,8 @@ def _describe(rec):
     h = ",".join(rec["history"]["full"])
     p = rec["pre"]
     ps = f"{p['abs']}/{p['elim']}/P{p['periph']}/T{p['tr']}{'D' if p['depot'] else 'N'}/L{int(p['lag'])}/B{int(p['bio'])}/{p['metab']}/{'X' if p['effect'] else '-'}"
-    base = f"{rec['start']}: [{h}] request {rec['act']} on {ps}: {rec['outcome']}"
+    via = "" if rec.get("via", "setter") == "setter" else f" through the MFL table entry {rec['via'][4:]}"
+    base = f"{rec['start']}: [{h}] request {rec['act']}{via} on {ps}: {rec['outcome']}"
     if rec.get("msg"):
         base += f" ({rec['where']}: {rec['msg']})"
     if rec.get("post"):
@@ -754,7 +783,7 @@ def _ext_or_bio(obs):
     return (obs["act"] in EXT and not obs["hist"]) or (q["bio"] and q["metab"] == "none" and not q["effect"])
 
 
-def walk(v, book, start, svec, acts, depth, table, rng, expand_if=None, max_states=None):
+def walk(v, book, start, svec, acts, depth, table, rng, expand_if=None, max_states=None, mfl_depth=0):
     """Level-synchronous walk from one start model: every obligation of every vector reached at distance < depth."""
     route = START_VEC[svec][4]
     vec0, _ = classify(_MODELS[start], route)
@@ -779,10 +808,10 @@ def walk(v, book, start, svec, acts, depth, table, rng, expand_if=None, max_stat
             obls = [dict(o, inv=o["inv"] if o["inv"] in acts else "none") for o in obls]
             n_states += 1
             for i in range(0, len(obls), CHUNK):
-                tasks.append((start, hist, k, obls[i:i + CHUNK], route, i == 0))
+                tasks.append((start, hist, k, obls[i:i + CHUNK], route, i == 0, d < mfl_depth))
         results = core.pmap(expand, tasks, procs=16, chunk=1)
         cand: dict = {}
-        for (s_, hist, k, obls, _r, _f), obs_list in zip(tasks, results):
+        for (s_, hist, k, obls, _r, _f, _m), obs_list in zip(tasks, results):
             for obs in obs_list:
                 book.add(obs)
                 if obs["kind"] == "step" and not obs.get("derived"):
@@ -821,26 +850,26 @@ def main(tier: str, seed: int) -> int:
     if tier == "quick":
         table = tlc_graph("Features.cfg", MFL5, v)
         plan = [
-            ("pheno_real", "iv1", MFL5, 3, None, None),
-            ("mox2", "oral1", MFL5, 3, None, 36),
+            ("pheno_real", "iv1", MFL5, 3, None, None, 2),
+            ("mox2", "oral1", MFL5, 3, None, 36, 2),
             # bioavailability / metabolite / effect compartment: the requests themselves and every request after them
-            ("pheno_real", "iv1", ALL_ACTS, 2, lambda o: o["act"] in EXT, None),
+            ("pheno_real", "iv1", ALL_ACTS, 2, lambda o: o["act"] in EXT, None, 1),
             # ... and on the oral model everything that can be requested from the bioavailability states
             # (depot + lag + F at once is reached as B:1, L:1: dose attributes must survive every later request)
-            ("mox2", "oral1", ALL_ACTS, 3, _ext_or_bio, None),
+            ("mox2", "oral1", ALL_ACTS, 3, _ext_or_bio, None, 1),
         ]
     else:
         table = tlc_graph("FeaturesFull.cfg", ALL_ACTS, v, timeout=3000)
         hists, sres = tlc_simulate(3000, 8, seed)     # histories for the replay after the walks
         plan = [
-            ("pheno_real", "iv1", ALL_ACTS, 4, None, 300),
-            ("mox2", "oral1", ALL_ACTS, 4, None, 300),
-        ] + [(n, sv, ALL_ACTS, 3, None, 100) for n, _, sv in START_MODELS[2:]]
+            ("pheno_real", "iv1", ALL_ACTS, 4, None, 300, 3),
+            ("mox2", "oral1", ALL_ACTS, 4, None, 300, 3),
+        ] + [(n, sv, ALL_ACTS, 3, None, 100, 2) for n, _, sv in START_MODELS[2:]]
     walks = []
     table_ext: dict = {}   # obligations over the full alphabet, asked from TLC on demand (quick tier)
-    for start, svec, acts, depth, expand_if, cap in plan:
+    for start, svec, acts, depth, expand_if, cap, mfl_depth in plan:
         tb = table if tier == "thorough" or len(acts) == len(MFL5) else table_ext
-        ns, ne, nseen, nopen = walk(v, book, start, svec, set(acts), depth, tb, rng, expand_if, cap)
+        ns, ne, nseen, nopen = walk(v, book, start, svec, set(acts), depth, tb, rng, expand_if, cap, mfl_depth)
         walks.append({"start": start, "acts": len(acts), "depth": depth, "states_expanded": ns, "edges": ne, "vectors_seen": nseen,
                       "never_run_requests": nopen,
                       "t": round(time.time() - t0, 1)})
@@ -876,6 +905,7 @@ def main(tier: str, seed: int) -> int:
         setter_calls=book.calls,
         distinct_step_observations=len(steps),
         distinct_relation_observations=len(rels),
+        requests_through_mfl_table=sum(book.count[i] for i, r in enumerate(book.recs) if r.get("via") == "mfl"),
         vectors_reached_on_real_models=len(reached),
         obligations_executed=len(executed_obl),
         obligations_of_reached_vectors=total_obl,
@@ -910,7 +940,10 @@ def replay(path: str) -> int:
     print("pre :", pre)
     book = Book()
     ob = {"t": tail[0], "inv": rel["inv"] if rel and rel["kind"] == "undo" else "none"}
-    for obs in expand((case["start"], tuple(hist), _key(pre), [ob], route, False)):
+    via = case.get("via", "setter")
+    if via.startswith("mfl:"):
+        ob["mfl"] = via[4:]
+    for obs in expand((case["start"], tuple(hist), _key(pre), [ob], route, False, via.startswith("mfl:"))):
         if obs["kind"] == "note":
             print(" ", obs["note"])
             continue
@@ -927,7 +960,7 @@ def replay(path: str) -> int:
 def selftest(seed: int) -> int:
     """Binding demonstration: TLC accepts a faithful observation and rejects corrupted ones."""
     pre = {"abs": "FO", "elim": "FO", "periph": 0, "tr": 0, "depot": True, "lag": False, "bio": True, "metab": "none", "effect": False, "route": "oral"}
-    ok = {"kind": "step", "pre": pre, "act": "L:1", "out": "applied", "post": dict(pre, lag=True), "wf": {"connected": True, "doses_same": True}}
+    ok = {"kind": "step", "via": "setter", "pre": pre, "act": "L:1", "out": "applied", "post": dict(pre, lag=True), "wf": {"connected": True, "doses_same": True}}
     recs = [
         ok,
         dict(ok, post=dict(pre, lag=False)),                     # detector does not report the requested feature
@@ -935,11 +968,13 @@ def selftest(seed: int) -> int:
         dict(ok, out="refused"),                                 # refusal where none is documented
         dict(ok, out="error"),
         dict(ok, wf={"connected": True, "doses_same": False}),
+        dict(ok, via="mfl", post=dict(pre, lag=False)),           # the MFL table entry does something else than requested
+        dict(ok, via="mfl", act="P+", post=dict(pre, periph=1)),  # no MFL entry makes this request
         {"kind": "idem", "pre": pre, "act": "L:1", "inv": "none", "res": "diff"},
         {"kind": "undo", "pre": pre, "act": "L:1", "inv": "L:0", "res": "diff"},
         {"kind": "undo", "pre": pre, "act": "L:1", "inv": "L:0", "res": "same"},
     ]
-    want = ["ok", "frame", "frame", "undocumented-refusal", "internal-error", "illformed", "idem", "undo", "ok"]
+    want = ["ok", "frame", "frame", "undocumented-refusal", "internal-error", "illformed", "frame", "na", "idem", "undo", "ok"]
     verdicts, _ = tlc_judge(recs, None)
     got = [verdicts[i]["v"] for i in range(len(recs))]
     print("selftest verdicts:", got)
